@@ -10,75 +10,75 @@ LEVEL_TEXT_COMMON = ("Bounded symbolic model checking of the real Go code: go/ss
 CHECKS = {
  # id: (design_ref, text, note, technique)
  "C01": ("DESIGN.md §5 C01",
-         "Structural obligations on every reader that completes a handshake (ServerAuth, hidden ServerResponse on the client; ClientAuth, hidden request on the server): success implies each MAC/tag field equals the corresponding duplex squeeze, the certificate verifier returned success before the static DH, the static DH was computed over the VERIFIED leaf's key and absorbed before the final MAC, and nothing beyond the datagram was consumed; the verification policy function accepts iff parse-exact and (skip or authorized-keys or store) and callback; the server publishes a connection only after the client's certificate was judged by its CONFIGURED policy, in both modes; the chain predicate of C04 is discharged here as well; the authorized-key set accepts exactly the keys currently in it over add/remove histories of 3 operations.",
+         "Structural obligations on every reader that completes a handshake (ServerAuth, hidden ServerResponse on the client; ClientAuth, hidden request on the server): success implies each MAC/tag field equals the corresponding duplex squeeze, the certificate verifier returned success before the static DH, the static DH was computed over the VERIFIED leaf's key and absorbed before the final MAC, and nothing beyond the datagram was consumed; the verification policy function accepts iff parse-exact and (skip or authorized-keys or store) and callback; the server publishes a connection only after the client's certificate was judged by its CONFIGURED policy, in both modes; the chain predicate of C04 is discharged here as well; the authorized-key set accepts exactly the keys currently in it over add/remove histories of 3 operations. Also: names match byte for byte (no folding); after a ClientAck the server's ephemeral DH private key depends only on freshly generated randomness (syntactic dependency check).",
          "Duplex, KEM, X25519, SHA3 and the AEAD are recorders with fresh outputs (ideal, collision-free reading; replay=none). Dolev-Yao adversary knowledge is not modelled: the check proves 'accept => MAC over the transcript containing DH(e,s) matched'.",
          "SSA symbolic execution + SMT (z3), transcript-conformance obligations with recording crypto stubs"),
  "C02": ("DESIGN.md §5 C02",
-         "Transcript conformance for all seven handshake messages: on success every received field before a MAC was absorbed/decrypted into the duplex in protocol order, byte for byte, every MAC field equals the squeeze that follows, the consumed length equals the message length and lies inside the datagram (truncation from stale receive-buffer bytes is a counterexample), the client flow consumes each datagram exactly; cookie replay re-absorbs the presented KEM key, the recovered secret and the cookie; the two directional keys are squeezed under different labels after a ratchet; the client driver (clientHandshakeLocked) reports success only if the exchange it ran did; the C13 one-step duplex differentials (absorb/encrypt/decrypt/squeeze vs. the specification) are discharged here as well so that no input byte is dropped by the duplex. With a collision-free duplex this is what makes any altered byte change a later MAC.",
+         "Transcript conformance for all seven handshake messages: on success every received field before a MAC was absorbed/decrypted into the duplex in protocol order, byte for byte, every MAC field equals the squeeze that follows, the consumed length equals the message length and lies inside the datagram (truncation from stale receive-buffer bytes is a counterexample), the client flow consumes each datagram exactly; cookie replay re-absorbs the presented KEM key, the recovered secret and the cookie; the two directional keys are squeezed under different labels after a ratchet; the client driver (clientHandshakeLocked) reports success only if the exchange it ran did; the C13 one-step duplex differentials (absorb/encrypt/decrypt/squeeze vs. the specification) are discharged here as well so that no input byte is dropped by the duplex. With a collision-free duplex this is what makes any altered byte change a later MAC. Also: Server.readPacket with an arbitrary stale receive buffer never completes a ClientAuth that arrived short; a session identifier colliding with a live session is drawn again and the live session is never overwritten.",
          "Same recording stubs as C01; KEM ciphertext bytes are bound only through decapsulation (by design of the protocol). Pairwise key distinctness across independent sessions rests on the freshness of ephemeral keys and is not a separate obligation.",
          "SSA symbolic execution + SMT (z3), transcript-conformance obligations with recording crypto stubs"),
  "C03": ("DESIGN.md §5 C03",
-         "One-step obligations from an arbitrary session state: a datagram of any length/content is delivered, or moves any state, only after exactly this datagram opened under this direction's key with its 16-byte header as associated data and a fresh counter, which is recorded afterwards; Write/WriteMsg chunking carries every byte once, in order, for every length 0..3*Max+1; ReadMsg/Read hand out queued messages whole and in order; the receive loops' buffers (bodies of the goroutines Serve and the client start, run inline) hold the largest datagram; the receive queue is empty or full; the replay filter's inductive step is discharged here too. Confidentiality is decided as syntactic non-interference: with SNI, certificates and application data as secret symbols and Encrypt/Seal as recorders with fresh outputs, no byte of any datagram written by the real client flow (ClientHello, ClientAck, ClientAuth), the hidden client request, writePQServerAuth, writePQServerResponseHidden, Write or WriteMsg depends on a secret symbol. Concurrent writers are outside this check (see DESIGN.md).",
+         "One-step obligations from an arbitrary session state: a datagram of any length/content is delivered, or moves any state, only after exactly this datagram opened under this direction's key with its 16-byte header as associated data and a fresh counter, which is recorded afterwards; Write/WriteMsg chunking carries every byte once, in order, for every length 0..3*Max+1; ReadMsg/Read hand out queued messages whole and in order; the receive loops' buffers (bodies of the goroutines Serve and the client start, run inline) hold the largest datagram; the receive queue is empty or full; the replay filter's inductive step is discharged here too. Confidentiality is decided as syntactic non-interference: with SNI, certificates and application data as secret symbols and Encrypt/Seal as recorders with fresh outputs, no byte of any datagram written by the real client flow (ClientHello, ClientAck, ClientAuth), the hidden client request, writePQServerAuth, writePQServerResponseHidden, Write or WriteMsg depends on a secret symbol. Concurrent writers are outside this check (see DESIGN.md). Also: no handshake deadline stays armed on an established client socket; the handshake-timeout callback never removes an established session; half-open sessions accept no session traffic; the transport's use of the AEAD (16-byte header as associated data, payload 0/1/200) equals the SANSE reference and opens only genuine tags.",
          "Kravatte-SANSE replaced by a recording AEAD whose Open is nondeterministic (structural reading: which key/AD/bytes gate delivery; the primitive itself is C12). Receive-step harnesses use replay=none because the stub is not realisable natively; write harnesses replay natively.",
          "SSA symbolic execution + SMT (z3), one-step from arbitrary state, AEAD stub"),
  "C04": ("DESIGN.md §5 C04",
-         "VerifyLeaf(...) == nil if and only if a branch-free declarative chain predicate holds, with every certificate field symbolic (type bytes over all 256 values, 32-bit times, fingerprints, key/signer ids, names, raw length) for a leaf, an optional presented intermediate and a trust store of up to 2 (quick) / 3 (thorough) certificates in total; VerifyParent's type/fingerprint/signature table; MatchesName / VerifyLeafFormat; a chain built by the real IssueIntermediate and IssueLeafAt (symbolic root window, issuance instant, requested validity, clock) is refused iff the request is invalid, expires at min(requested, parent's expiry) and verifies at every instant of the leaf's window. The single-bit-mutation corollary is not a separate harness (it follows from the iff and from C18's round-trip); selfSign's calendar arithmetic is outside.",
+         "VerifyLeaf(...) == nil if and only if a branch-free declarative chain predicate holds, with every certificate field symbolic (type bytes over all 256 values, 32-bit times, fingerprints, key/signer ids, names, raw length) for a leaf, an optional presented intermediate and a trust store of up to 2 (quick) / 3 (thorough) certificates in total; VerifyParent's type/fingerprint/signature table; MatchesName / VerifyLeafFormat; a chain built by the real IssueIntermediate and IssueLeafAt (symbolic root window, issuance instant, requested validity, clock) is refused iff the request is invalid, expires at min(requested, parent's expiry) and verifies at every instant of the leaf's window. The single-bit-mutation corollary is not a separate harness (it follows from the iff and from C18's round-trip); selfSign's calendar arithmetic is outside. The issued leaf is serialised and parsed back before verification, all three leaf-issuing entry points are driven under a parent of symbolic type, and PEM bundles (armour faked) yield each certificate independently with its own signed bytes.",
          "Ed25519 idealised: a signature verifies iff its signer id equals the key id (stub of keys.VerifySignature, replay=none; signing idealised consistently in the issuing harness); fingerprints range over 2 symbolic bytes and the store is keyed by its entries' own fingerprints.",
          "SSA symbolic execution + SMT (z3), equivalence with a declarative predicate"),
  "C05": ("DESIGN.md §5 C05",
-         "AuthorizeKey grants access iff user lookup, open and parse all succeeded and the (fully symbolic) key equals one of the parsed keys - every failure combination refuses; the real parser (bufio.Scanner, TrimSpace, ParseDHPublicKey, base64) on files assembled from 10 line kinds (incl. 31- and 33-byte payloads) x up to 3 lines grants only well-formed files that list the key; grant fallback: only when enabled, only for exactly (user,key), consumed once, stored fields kept, consumed grants not resurrected by a later grant, over all histories of up to 3 AddAuthGrant operations with symbolic grant fields. checkAuthorization's glue (tube accept, user-auth message) is not covered.",
+         "AuthorizeKey grants access iff user lookup, open and parse all succeeded and the (fully symbolic) key equals one of the parsed keys - every failure combination refuses; the real parser (bufio.Scanner, TrimSpace, ParseDHPublicKey, base64) on files assembled from 10 line kinds (incl. 31- and 33-byte payloads) x up to 3 lines grants only well-formed files that list the key; grant fallback: only when enabled, only for exactly (user,key), consumed once, stored fields kept, consumed grants not resurrected by a later grant, over all histories of up to 3 AddAuthGrant operations with symbolic grant fields. checkAuthorization's glue (tube accept, user-auth message) is not covered. Also: the server-configuration loader maps each access switch (EnableAuthgrants, EnableAuthorizedKeys, InsecureSkipVerify, DisableCertificateValidation, AutoSelfSign; absent/false/true) to its own field; two-login histories on one server with the file changing in between; UserDirectoryFor looks up exactly the requested account name.",
          "File system, user lookup and (in the first harness) the parser are nondeterministic stubs; the parser harness uses concrete line texts chosen by the solver.",
          "SSA symbolic execution + SMT (z3), iff-obligations over failure combinations and grant histories"),
  "C06": ("DESIGN.md §5 C06",
-         "The principal's real request handler run for 2 (quick) / 3 (thorough) consecutive requests with fully symbolic intents against every combination of approval verdict, target set-up outcome (unreachable / handshake then success / handshake then failure), send failure and target answer: an intent is forwarded only after the callback approved that same intent in that request, field for field; exactly one answer per request; 'confirmed' iff the target confirmed; other-target requests are denied unforwarded; with the target's answer as 0..4 arbitrary bytes through the real ReadConfOrDenial, 'confirmed' reaches the delegate iff the answer is a well-formed confirmation. Target side: exactly one answer, confirmation iff policy accepted and the grant was stored. The forwarded message re-decodes to the approved intent (real codecs).",
+         "The principal's real request handler run for 2 (quick) / 3 (thorough) consecutive requests with fully symbolic intents against every combination of approval verdict, target set-up outcome (unreachable / handshake then success / handshake then failure), send failure and target answer: an intent is forwarded only after the callback approved that same intent in that request, field for field; exactly one answer per request; 'confirmed' iff the target confirmed; other-target requests are denied unforwarded; with the target's answer as 0..4 arbitrary bytes through the real ReadConfOrDenial, 'confirmed' reaches the delegate iff the answer is a well-formed confirmation. Target side: exactly one answer, confirmation iff policy accepted and the grant was stored. The forwarded message re-decodes to the approved intent (real codecs). The approval callback (the handshake's additional verify callback) is consulted under every certificate policy; representable intents are never refused half-way by the encoder.",
          "The four message functions are replaced by recorders in the principal/target harnesses (replay=none); the hopclient glue that wires the callback into the handshake is not covered.",
          "SSA symbolic execution + SMT (z3), bounded request sequences with nondeterministic callbacks"),
  "C07": ("DESIGN.md §5 C07",
-         "checkCmd from an arbitrary list of up to 2 (quick) / 3 (thorough) grants with symbolic type (all 256 values), start, expiry, command text and principal, symbolic request and clock: succeeds iff a grant of the matching type is effective, unexpired and (commands) textually identical; exactly that grant is consumed and the rest kept in order; startCodex for a grant session goes ahead iff checkCmd accepted; one pass of the session's tube loop dispatches only execution for grant sessions (two recorded known findings: port-forward and authgrant tubes are not gated); the grant map hands a user's grants only to the exact key, once, with the type/start/expiry/command they were issued with, over histories of up to 3 grants; a key whose grants were consumed is no longer accepted by the transport policy.",
+         "checkCmd from an arbitrary list of up to 2 (quick) / 3 (thorough) grants with symbolic type (all 256 values), start, expiry, command text and principal, symbolic request and clock: succeeds iff a grant of the matching type is effective, unexpired and (commands) textually identical; exactly that grant is consumed and the rest kept in order; startCodex for a grant session goes ahead iff checkCmd accepted; one pass of the session's tube loop dispatches only execution for grant sessions (two recorded known findings: port-forward and authgrant tubes are not gated); the grant map hands a user's grants only to the exact key, once, with the type/start/expiry/command they were issued with, over histories of up to 3 grants; a key whose grants were consumed is no longer accepted by the transport policy. Command text and user name are read whole or refused over a fragmenting reader; no user session is numbered NoSession.",
          "Clock and user lookup are the repo's own thunks set by the harness; tube/muxer methods and exec-message parsing are stubs; go statements are recorded, not run.",
          "SSA symbolic execution + SMT (z3), iff-obligation over arbitrary grant lists"),
  "C08": ("DESIGN.md §5 C08",
-         "Safety core only: unwrapFrameNo recovers every true frame number within 2^31 of the acknowledgement number; frameInBounds is interval membership; one receiver step from an arbitrary invariant-satisfying state (ghost stream D(k), <=2 queued fragments, arriving frame anywhere from 2 behind to 5 ahead) extends the buffer by exactly the next in-order frames and reports end-of-stream only when the FIN frame is reached in order; a FIN that overtook data changes no close state in any of six tube states; the sender cuts any write of 0..65537 bytes into consecutively numbered frames concatenating to the buffer; recvAck (progress resets the duplicate-ack counter) and one retransmission-timer tick of the send loop keep the unacknowledged frames; ten consecutive ticks without acknowledgement never collapse the window or drop frames[0]; a decoded frame owns its payload.",
+         "Safety core only: unwrapFrameNo recovers every true frame number within 2^31 of the acknowledgement number; frameInBounds is interval membership; one receiver step from an arbitrary invariant-satisfying state (ghost stream D(k), <=2 queued fragments, arriving frame anywhere from 2 behind to 5 ahead) extends the buffer by exactly the next in-order frames and reports end-of-stream only when the FIN frame is reached in order; a FIN that overtook data changes no close state in any of six tube states; the sender cuts any write of 0..65537 bytes into consecutively numbered frames concatenating to the buffer; recvAck (progress resets the duplicate-ack counter) and one retransmission-timer tick of the send loop keep the unacknowledged frames; ten consecutive ticks without acknowledgement never collapse the window or drop frames[0]; a decoded frame owns its payload. Also: the priority acknowledgement answering a retransmitted frame carries the receive window's own number; ReadMsgUDP returns only complete messages; reaping a tube leaves its same-numbered twin of the other class mapped.",
          "Eventual delivery ('if the network delivers again every byte becomes readable') is a liveness property over timers and several goroutines and is NOT decided; congestion arithmetic is floating point (havoc, except in the outage harness where it is concrete). The ghost stream is an uninterpreted function (replay=none for that harness).",
          "SSA symbolic execution + SMT (z3), one-step inductive obligations with a ghost stream"),
  "C09": ("DESIGN.md §5 C09",
-         "pickTubeID returns the smallest free identifier of the muxer's own parity (out-of-tubes iff none), ignoring the other parity and the other reliability class; the muxer's real receive loop run over two frames (first arbitrary, second valid) delivers each frame only to the tube with its (reliability, identifier), creates a tube iff REQ names a free pair and offers it to Accept once with the announced type; every frame a reliable/unreliable tube emits carries its identifier and reliability class; a closed reliable tube's identifier stays reserved by its opener until the reap timer; unreliable write -> frame -> decode -> receive -> read is the identity for lengths {0,1,100,32768} and a refusal for {32769,...,70000}; CreateReliableTube/CreateUnreliableTube in any order of 3 give distinct identifiers within each class with the role's parity.",
+         "pickTubeID returns the smallest free identifier of the muxer's own parity (out-of-tubes iff none), ignoring the other parity and the other reliability class; the muxer's real receive loop run over two frames (first arbitrary, second valid) delivers each frame only to the tube with its (reliability, identifier), creates a tube iff REQ names a free pair and offers it to Accept once with the announced type; every frame a reliable/unreliable tube emits carries its identifier and reliability class; a closed reliable tube's identifier stays reserved by its opener until the reap timer; unreliable write -> frame -> decode -> receive -> read is the identity for lengths {0,1,100,32768} and a refusal for {32769,...,70000}; CreateReliableTube/CreateUnreliableTube in any order of 3 give distinct identifiers within each class with the role's parity. The receive loop also runs with a full accept queue (a created tube is offered or waited for, never dropped); queued frames own their bytes; reaping leaves the twin of the other class mapped.",
          "'A later tube that reuses the identifier never sees the old tube's packets' is decided only as the reservation step above; the 4*RTT timer racing the network is schedule/timing and outside. Tube receive functions are recorders in the loop harness (replay=none).",
          "SSA symbolic execution + SMT (z3), one loop iteration / one step from constructed states"),
  "C10": ("DESIGN.md §5 C10",
-         "Every datagram of length 0..65535 with arbitrary bytes (including a live session's public id) through the server's and client's session-message handler from an arbitrary session state, and every datagram of length 0..1700 with a fully symbolic type byte through Server.readPacket in discoverable and hidden mode with 1-2 certificates, a pending handshake of another address, another client's half-open session and an established session: no panic, returns, other peers' handshakes and unauthenticated sessions untouched; the real GetCertificate callback installed by NewHopServer never panics on any name of 0..3 bytes and any type (the glob itself is C20).",
+         "Every datagram of length 0..65535 with arbitrary bytes (including a live session's public id) through the server's and client's session-message handler from an arbitrary session state, and every datagram of length 0..1700 with a fully symbolic type byte through Server.readPacket in discoverable and hidden mode with 1-2 certificates, a pending handshake of another address, another client's half-open session and an established session: no panic, returns, other peers' handshakes and unauthenticated sessions untouched; the real GetCertificate callback installed by NewHopServer never panics on any name of 0..3 bytes and any type (the glob itself is C20). Also: ParseKEMPublicKeyFromBytes on 800 symbolic bytes through circl's real ML-KEM-512 unpacking returns an error or a usable key; the duplex never panics on any operand length (0 included).",
          "AEAD stubbed by a nondeterministic Open; panics replay natively against the real build.",
          "SSA symbolic execution + SMT (z3), panic-freedom + non-interference, one step from arbitrary state"),
  "C11": ("DESIGN.md §5 C11",
-         "Panic-freedom and bounded allocation for fromBytes on the muxer's full 65535-byte symbolic buffer, recvAck with every 32-bit acknowledgement from an invariant-satisfying sender with <=2 (quick) / <=3 (thorough) unacked frames, and every application decoder (exec, window size, userauth, authgrant messages, proxy responses) on symbolic streams with EOF at several positions; a certificate encoding cut at each of 28 positions is refused; the muxer's real receive loop survives any frame, keeps serving the next one and is never wedged by a blocking channel send in a tube's receive function; port-forward decoders. 'Can still be stopped cleanly' (C16) is not covered.",
+         "Panic-freedom and bounded allocation for fromBytes on the muxer's full 65535-byte symbolic buffer, recvAck with every 32-bit acknowledgement from an invariant-satisfying sender with <=2 (quick) / <=3 (thorough) unacked frames, and every application decoder (exec, window size, userauth, authgrant messages, proxy responses) on symbolic streams with EOF at several positions; a certificate encoding cut at each of 28 positions is refused; the muxer's real receive loop survives any frame, keeps serving the next one and is never wedged by a blocking channel send in a tube's receive function; port-forward decoders. 'Can still be stopped cleanly' (C16) is not covered. Also: the client-side exec status reader (bounded allocation), the muxer's receive buffer holds the largest transport message, pickTubeID terminates when every identifier of its parity is taken (termination required).",
          "Length-like bytes of multi-field messages are picked from a grid (stated per harness) so that offsets stay concrete; all other bytes symbolic. Tube reads are replaced by a finite symbolic stream.",
          "SSA symbolic execution + SMT (z3), panic/allocation obligations on symbolic input buffers"),
  "C12": ("DESIGN.md §5 C12",
-         "Over an UNINTERPRETED 6-round permutation (25 uninterpreted functions of the 25 lanes): Seal then Open is the identity for two-message sessions on the boundary grid |P| in {0,1,199,200,201,400} x |A| in {0,16,200,201}; a message opens only if all 32 tag bytes equal the tag of its plaintext (re-seal obligation on arbitrary bytes); the mask derivation hands key||0x01||0* to the permutation for every key length 1..199 and refuses >= 200; in-place Seal/Open (dst overlapping the input at offset 0 or behind a header) equals out-of-place use and leaves the AD alone; the one-shot Kravatte function equals a specification transcription for input lengths {0,1,199,200,201,399,400,401,600} x output lengths {1,32,200,201,400}; Seal/Open on one instance for 2 (quick) / 3 (thorough) consecutive messages starting from session bit 0 or 1 equal a SANSE reference that keeps the history as a list of strings (ciphertext, tag, session bit, and the reference's output opens), lengths {0,1,200}^2 per message.",
+         "Over an UNINTERPRETED 6-round permutation (25 uninterpreted functions of the 25 lanes): Seal then Open is the identity for two-message sessions on the boundary grid |P| in {0,1,199,200,201,400} x |A| in {0,16,200,201}; a message opens only if all 32 tag bytes equal the tag of its plaintext (re-seal obligation on arbitrary bytes); the mask derivation hands key||0x01||0* to the permutation for every key length 1..199 and refuses >= 200; in-place Seal/Open (dst overlapping the input at offset 0 or behind a header) equals out-of-place use and leaves the AD alone; the one-shot Kravatte function equals a specification transcription for input lengths {0,1,199,200,201,399,400,401,600} x output lengths {1,32,200,201,400}; Seal/Open on one instance for 2 (quick) / 3 (thorough) consecutive messages starting from session bit 0 or 1 equal a SANSE reference that keeps the history as a list of strings (ciphertext, tag, session bit, and the reference's output opens), lengths {0,1,200}^2 per message. Streaming Kra/Vatte in parts, and FlagInit after an unfinished input, equal the one-shot specification.",
          "The assembly permutation is outside (uninterpreted): 'equals the published XKCP outputs' end to end is not claimed, nor that different ciphertexts give different tags (the primitive's strength). Lengths off the grid are outside. replay=none (uninterpreted functions have no native meaning); cvc5 decides the UF-heavy harnesses.",
          "SSA symbolic execution + SMT (z3/cvc5, QF_UFBV), differential against a specification transcription over an uninterpreted permutation"),
  "C13": ("DESIGN.md §5 C13",
-         "One call of Absorb / Squeeze / SqueezeKey / Ratchet / Encrypt / Decrypt from an ARBITRARY state (phase, mode, 1600 symbolic state bits) and Initialize(key,id,counter) equal a transcription of the Cyclist specification (outputs and post-state), operand lengths {0,1,135,136,137,271,272,273} across the 136-byte rate, over a shared uninterpreted 12-round permutation; wrong-mode calls panic; Encrypt on one object and Decrypt on another in the same state leave both in the same state with equal next tags. One step from an arbitrary state covers operation sequences of any length. The generic permutation (cyclist/keccakf.go, selected by loading the package under the build tag appengine) executed on 25 symbolic lanes equals a transcription of Keccak-p[1600,12] from FIPS 202 (LFSR round constants, walk-generated rotation offsets) on all 1600 bits.",
+         "One call of Absorb / Squeeze / SqueezeKey / Ratchet / Encrypt / Decrypt from an ARBITRARY state (phase, mode, 1600 symbolic state bits) and Initialize(key,id,counter) equal a transcription of the Cyclist specification (outputs and post-state), operand lengths {0,1,135,136,137,271,272,273} across the 136-byte rate, over a shared uninterpreted 12-round permutation; wrong-mode calls panic; Encrypt on one object and Decrypt on another in the same state leave both in the same state with equal next tags. One step from an arbitrary state covers operation sequences of any length. The generic permutation (cyclist/keccakf.go, selected by loading the package under the build tag appengine) executed on 25 symbolic lanes equals a transcription of Keccak-p[1600,12] from FIPS 202 (LFSR round constants, walk-generated rotation offsets) on all 1600 bits. Initialize / InitializeEmpty give the specification's state from a fresh or a used object (arbitrary phase, mode, state), nil and empty keys alike.",
          "The amd64 assembly permutation is not encoded: 'instantiated with 12-round Keccak-p[1600]' is decided for the generic Go permutation only (syntactic equality after xor AC-normalisation on the clean tree; cvc5 produces the model on a mutated one, replayed natively with -tags appengine). Lengths off the grid are outside. replay=none for the duplex harnesses; cvc5.",
          "SSA symbolic execution + SMT (cvc5, QF_UFBV), one-step differential against a specification transcription"),
  "C14": ("DESIGN.md §5 C14",
-         "One-step inductive argument (arbitrary window state satisfying a stated representation invariant, one Check/Mark, invariant and Check<=>set-spec afterwards) covers histories of any length; a k<=3 (quick) / k<=4 (thorough) BMC from the zero state guards the invariant against vacuity; the counter handed to the filter is the 64-bit big-endian value of the header field (readCounter/writeCounter). Counters >= 2^63 are outside the claim, as in the property.",
+         "One-step inductive argument (arbitrary window state satisfying a stated representation invariant, one Check/Mark, invariant and Check<=>set-spec afterwards) covers histories of any length; a k<=3 (quick) / k<=4 (thorough) BMC from the zero state guards the invariant against vacuity; the counter handed to the filter is the 64-bit big-endian value of the header field (readCounter/writeCounter). Counters >= 2^63 are outside the claim, as in the property. The session receive step shows that only authenticated packets' counters ever reach the filter's memory.",
          "Trusted: go/ssa, the engine's interpreter, z3; the invariant is stated in harness/transport/c14_replay.go. Mark's clearing loop is unrolled completely (<= 8 iterations, unwinding checked).",
          "SSA symbolic execution + SMT (z3), inductive invariant + BMC"),
  "C15": ("DESIGN.md §5 C15",
-         "From an arbitrary session state and for a datagram of any length/content from any source address: the stored peer address changes only on a path where the AEAD open of that datagram succeeded (hence its counter passed the replay filter), the new value is the datagram's source, and after a genuine transport packet the address equals its source whether the receive queue is empty or full; send() uses the address read under the session lock; the replay filter's inductive step is discharged here too (a replayed packet cannot redirect). Server and client handlers.",
+         "From an arbitrary session state and for a datagram of any length/content from any source address: the stored peer address changes only on a path where the AEAD open of that datagram succeeded (hence its counter passed the replay filter), the new value is the datagram's source, and after a genuine transport packet the address equals its source whether the receive queue is empty or full; send() uses the address read under the session lock; the replay filter's inductive step is discharged here too (a replayed packet cannot redirect). Server and client handlers. Half-open sessions (created by the server's own code, no keys yet) are never redirected; the AEAD as the transport uses it equals the SANSE reference over the whole header and rejects forged tags for empty payloads too.",
          "AEAD stubbed (recording, nondeterministic Open); replay=none. Interleavings of send with a concurrent update are outside.",
          "SSA symbolic execution + SMT (z3), one step from arbitrary state"),
  "C18": ("DESIGN.md §5 C18",
-         "decode(encode(v)) == v field by field, with exact consumption, for tube frames, initiate frames, flag bytes, length-prefixed strings, certificate names / id chunks / certificates, intents and grant messages, denials, proxy responses, exec requests, window sizes, userauth requests and port-forward requests (TCP/UDP/unix, IPv4/IPv6); lengths straddle every length-field boundary (255/256, 252/253, 65535/65536); decode-encode-decode for certificates.",
+         "decode(encode(v)) == v field by field, with exact consumption, for tube frames, initiate frames, flag bytes, length-prefixed strings, certificate names / id chunks / certificates, intents and grant messages, denials, proxy responses, exec requests, window sizes, userauth requests and port-forward requests (TCP/UDP/unix, IPv4/IPv6); lengths straddle every length-field boundary (255/256, 252/253, 65535/65536); decode-encode-decode for certificates. Also: target info through real net/url (user bytes of every value), the handshake's certificate vectors across 255/256, PEM bundles, exec status, and ReadString over fragmenting readers.",
          "Multi-field messages take their length fields from stated grids; SHA3 (certificate fingerprint) replaced by fresh bytes; userauth tube I/O replaced by a byte stream (replay=none there).",
          "SSA symbolic execution + SMT (z3), round-trip obligations with symbolic fields"),
  "C19": ("DESIGN.md §5 C19",
-         "ClientHello of any length/content leaves the handshake and session tables unchanged and triggers at most one datagram, to the source; a ClientAck is accepted only if the cookie field of THIS datagram opened under the server's current cookie key with associated data = hash over (KEM key of this datagram, source IP of length 4 or 16, source port); a hidden-mode server with 1-2 certificates emits a datagram only for a hidden request of exact length whose KEM ciphertext was decapsulated with its own key, whose tag and final MAC matched, whose certificate verified and whose authenticated timestamp lies within the 5 s window of the (symbolic) clock - every other message type gets nothing.",
+         "ClientHello of any length/content leaves the handshake and session tables unchanged and triggers at most one datagram, to the source; a ClientAck is accepted only if the cookie field of THIS datagram opened under the server's current cookie key with associated data = hash over (KEM key of this datagram, source IP of length 4 or 16, source port); a hidden-mode server with 1-2 certificates emits a datagram only for a hidden request of exact length whose KEM ciphertext was decapsulated with its own key, whose tag and final MAC matched, whose certificate verified and whose authenticated timestamp lies within the 5 s window of the (symbolic) clock - every other message type gets nothing. Also: Server.init draws every cookie-key byte from the random source in every certificate configuration; NewHopServer runs the transport server hidden exactly when hidden virtual hosts are configured; the freshness window is checked against the literal 5 s.",
          "AEAD/SHA3/KEM/duplex are recorders (replay=none). Replays inside the 5 s window are accepted by design and by the property's wording.",
          "SSA symbolic execution + SMT (z3), one datagram from arbitrary server state with recording crypto stubs"),
  "C20": ("DESIGN.md §5 C20",
-         "Glob(pattern,input) is total (unwinding bound = termination) and equals a branch-free dynamic-programming glob matcher for all patterns and inputs of length <= 5 (quick) / <= 7 (thorough) over all 256 byte values; MatchHost applies exactly the matching host blocks in order; VirtualHosts.Match returns the first match.",
+         "Glob(pattern,input) is total (unwinding bound = termination) and equals a branch-free dynamic-programming glob matcher for all patterns and inputs of length <= 5 (quick) / <= 7 (thorough) over all 256 byte values; MatchHost applies exactly the matching host blocks in order; VirtualHosts.Match returns the first match. Also: NewVirtualHosts yields exactly the configured blocks in order plus the fallback; the GetCertificate callback installed by NewHopServer presents the first virtual host matching the requested label for every name type; mergeClientFlagsAndConfig applies the matching host blocks of the default file and of the -C file.",
          "Longer strings are outside the claim. MatchHost/VirtualHosts use concrete pattern sets (matching / non-matching / absent) with the real Glob.",
          "SSA symbolic execution + SMT (z3), differential against declarative matcher"),
 }
